@@ -39,6 +39,25 @@ func worker(id int, in <-chan int, out chan<- string, done *int32) {
 	atomic.AddInt32(done, 1)
 }
 
+// firstOf ends in a select whose clauses all return: the select is a terminating statement and the rewritten
+// form has to stay one ("missing return" otherwise).
+func firstOf(a <-chan int, stop <-chan struct{}) int {
+	select {
+	case v := <-a:
+		return v
+	case <-stop:
+		return -1
+	}
+}
+
+// park ends in an empty select (also a terminating statement).
+func park(never bool) int {
+	if !never {
+		return 7
+	}
+	select {}
+}
+
 func Run() string {
 	var log []string
 	var logMu sync.Mutex
@@ -181,5 +200,13 @@ T:
 		say("nil chan fired?")
 	}
 	say(fmt.Sprint("res:", <-res, " finished:", atomic.LoadInt32(&finished)))
+
+	// 7. selects as terminating statements
+	fa := make(chan int, 1)
+	fstop := make(chan struct{})
+	fa <- 5
+	say(fmt.Sprint("firstOf:", firstOf(fa, fstop), " park:", park(false)))
+	close(fstop)
+	say(fmt.Sprint("firstOf stop:", firstOf(fa, fstop)))
 	return strings.Join(log, ";")
 }
